@@ -316,6 +316,11 @@ def main():
             for c in range(0, len(sts), 60):
                 tasks.append({"op": "allele_kernels", "ped": peds[name], "states": sts[c:c + 60], "layout": layout})
                 owners.append((name, sts[c:c + 60], layout))
+    # the same pedigrees listed after 130 unrelated founders without reads (sample indices beyond a signed byte): the joint
+    # posterior factorises over unrelated individuals, the rows of the real individuals are the model's rows unchanged
+    for name, sts in states.items():
+        tasks.append({"op": "allele_kernels", "ped": peds[name], "states": sts[:24 if tier == "quick" else 200], "layout": None, "pad": 130})
+        owners.append((name, sts[:24 if tier == "quick" else 200], None))
     res = run_pool(ck, tasks, "jit", "gibbs_probabilities")
     gib = {}    # (ped, state key, i, k) -> impl vector, for the stationarity check
     mhk = {}
